@@ -74,8 +74,10 @@ def _setup() -> dict:
     return _state
 
 
-def observe(tree: list[dict], link: bool, extra: bool = False) -> tuple[bool, bool]:
-    """Build the real recorder for `tree` and run both checks on its last node. Returns (uaf reported, rna reported)."""
+def observe(tree: list[dict], link: bool, extra: bool = False, rep: str = "str") -> tuple[bool, bool]:
+    """Build the real recorder for `tree` and run both checks on its last node. Returns (uaf reported, rna reported).
+    rep = how identifier values are held by the Case objects: all strings (generated values), all ints (values a link took from a
+    JSON body), or alternating - the same identifier on the wire either way, so the expectation does not depend on it."""
     st = _setup()
     s = st["schema"]
     rec = st["Recorder"](label="x")
@@ -83,7 +85,8 @@ def observe(tree: list[dict], link: bool, extra: bool = False) -> tuple[bool, bo
     last = None
     for i, n in enumerate(tree):
         path, method = KIND[n["kind"]]
-        kw = {} if n["kind"] == "POST users" else {"path_parameters": {"id": str(n["id"])}}
+        as_int = rep == "int" or (rep == "alt" and i % 2 == 0)
+        kw = {} if n["kind"] == "POST users" else {"path_parameters": {"id": n["id"] if as_int else str(n["id"])}}
         if i == len(tree) - 1 and not link and kw:
             kw["meta"] = st["gen_meta"]()  # path parameters were generated, nothing overridden by a link
         if i == len(tree) - 1 and n["kind"] == "GET user posts":
@@ -120,6 +123,11 @@ def _work(case: dict) -> tuple[bool, bool]:
     return observe(case["tree"], case["link"], case.get("extra", False))
 
 
+def _work_rep(item: tuple) -> tuple[bool, bool]:
+    case, rep = item
+    return observe(case["tree"], case["link"], case.get("extra", False), rep)
+
+
 def _short(tree: list[dict], link: bool) -> str:
     return " -> ".join("%s#%s:%s^%s" % (n["kind"], n["id"], n["status"], n["parent"]) for n in tree) + (
         "" if link else " [generated params]")
@@ -145,6 +153,8 @@ def signature(case: dict, which: str, direction: str) -> str:
             feats.append("root-delete")
     else:
         feats = ["status-" + _status_class(n["status"]), "link" if case["link"] else "generated"] + (["extra-generated-optional"] if case.get("extra") else [])
+    if case.get("rep", "str") != "str":
+        feats.append("identifiers-held-as-" + case["rep"])
     return "C18:%s:%s:%s" % (which, direction, "+".join(feats))
 
 
@@ -188,6 +198,20 @@ def run(ctx: Ctx) -> Outcome:
             dis.append((c, "uaf", "unsound" if u else "incomplete", u, r))
         if r and not c["rna"]:
             dis.append((c, "rna", "unsound", u, r))
+    # the same forests with the identifiers held as ints / alternating int and str by the Case objects (every forest in which the spec
+    # or the implementation reports something, plus a sample of the silent ones): the verdicts must not move
+    loud = [c for c, (u, r) in zip(cases, obs) if c["uaf"] or u or r]
+    quiet = [c for c, (u, r) in zip(cases, obs) if not (c["uaf"] or u or r)]
+    rep_items = [(c, rep) for rep in ("int", "alt") for c in common.sample(rng, loud, 15000 if ctx.quick else 100000) + common.sample(rng, quiet, 5000 if ctx.quick else 50000)]
+    rep_obs = common.pmap(_work_rep, rep_items)
+    rep_dis = 0
+    for (c, rep), (u, r) in zip(rep_items, rep_obs):
+        if u != c["uaf"]:
+            rep_dis += 1
+            dis.append((dict(c, rep=rep), "uaf", "unsound" if u else "incomplete", u, r))
+        if r and not c["rna"]:
+            rep_dis += 1
+            dis.append((dict(c, rep=rep), "rna", "unsound", u, r))
     # code -> spec: TLC re-judges every disagreement plus a random sample of agreeing observations
     idx_dis = {id(d[0]) for d in dis}
     pool = [(c, o) for c, o in zip(cases, obs) if id(c) not in idx_dis]
@@ -210,7 +234,8 @@ def run(ctx: Ctx) -> Outcome:
         out.violations.append(Violation(
             signature(c, which, direction),
             "%s %s: spec=%s impl=%s for %s" % (which, direction, c[which], u if which == "uaf" else r, _short(c["tree"], c["link"])),
-            {"tree": c["tree"], "link": c["link"], "extra": c.get("extra", False), "expected": {"uaf": c["uaf"], "rna_allowed": c["rna"]}},
+            {"tree": c["tree"], "link": c["link"], "extra": c.get("extra", False), "rep": c.get("rep", "str"),
+             "expected": {"uaf": c["uaf"], "rna_allowed": c["rna"]}},
         ))
     out.coverage = {
         "states": res.distinct,
@@ -224,7 +249,7 @@ def run(ctx: Ctx) -> Outcome:
                 "recorder + both checks); non-trivial = spec or implementation reports a finding for the last node" % cfg,
         "exhaustive": True,
         "constants": {"cfg": [cfg, deep_cfg], "kinds": sorted(KIND), "ids": [1, 11]},
-        "disagreements": len(dis),
+        "disagreements": len(dis), "identifier_representation_runs": len(rep_items), "identifier_representation_disagreements": rep_dis,
         "tlc_enumeration_s": round(res.wall_s, 1), "replay_s": round(t_replay, 1), "tlc_judge_s": round(jres.wall_s, 1),
         "judge_states": jres.distinct,
     }
@@ -240,9 +265,9 @@ def replay(ctx: Ctx, data: dict) -> Outcome:
     out = Outcome()
     if data.get("kind") == "spec":
         return out
-    u, r = observe(data["tree"], data["link"], data.get("extra", False))
+    u, r = observe(data["tree"], data["link"], data.get("extra", False), data.get("rep", "str"))
     exp = data["expected"]
-    c = {"tree": data["tree"], "link": data["link"]}
+    c = {"tree": data["tree"], "link": data["link"], "rep": data.get("rep", "str")}
     if u != exp["uaf"]:
         out.violations.append(Violation(signature(c, "uaf", "unsound" if u else "incomplete"), "uaf impl=%s spec=%s" % (u, exp["uaf"]), data))
     if r and not exp["rna_allowed"]:
